@@ -32,5 +32,45 @@ func (s *Scanner) readSchemaWithJsc() (uint, *jerr.JApiError) {
 		err := kit.ConvertError(file, err)
 		return 0, s.japiError(err.Message(), s.curIndex+bytes.Index(err.Index()))
 	}
+	if bracketsNestedDeeperThan(file.Content().Data()[:l], maxBracketNesting) {
+		// The schema library builds its tree of such a text by recursion: a
+		// million brackets (2 MB) end the process with a stack overflow.
+		return 0, s.japiError(jerr.SchemaIsTooDeep, s.curIndex)
+	}
 	return l, nil
+}
+
+// maxBracketNesting is above the limit on the nesting of a schema (1000 levels,
+// checked when the schema is built) by what the braces of the rules in the
+// annotations can add.
+const maxBracketNesting = 1064
+
+// bracketsNestedDeeperThan counts the brackets and braces of the text of a
+// schema outside its strings and its # comments.
+func bracketsNestedDeeperThan(b []byte, limit int) bool {
+	depth := 0
+	for i := 0; i < len(b); i++ {
+		switch b[i] {
+		case '"':
+			for i++; i < len(b) && b[i] != '"'; i++ {
+				if b[i] == '\\' {
+					i++
+				}
+			}
+		case '#':
+			for i < len(b) && b[i] != '\n' && b[i] != '\r' {
+				i++
+			}
+		case '[', '{':
+			depth++
+			if depth > limit {
+				return true
+			}
+		case ']', '}':
+			if depth > 0 {
+				depth--
+			}
+		}
+	}
+	return false
 }
